@@ -230,6 +230,7 @@ func AnalyzeBind(p *load.Program, r *Roles, depth int) *UnitResult {
 		if fn := p.Method("Result", "Bind"); fn != nil {
 			pos = p.Position(fn.Pos())
 		}
+		checkResultCtors(p, r, res, "C16.R6", "C16.ENGINE")
 		col.Check("C16.R5", "Bind:siblings", same, pos, fmt.Sprintf("the store's Bind and the result's Bind do not have the same outcome classes: store %v, result %v", a, b), nil)
 	}
 	return res
